@@ -272,6 +272,38 @@ func genChanged(repo, out string) error {
 	}
 	b.WriteString("]\n\nend Gotree.Gen.C19Changed\n")
 	p := filepath.Join(out, "C19Changed.lean")
+	if old, err := os.ReadFile(p); err != nil || string(old) != b.String() {
+		if err := os.WriteFile(p, []byte(b.String()), 0644); err != nil {
+			return err
+		}
+	}
+	return genSentinels(repo, out)
+}
+
+// genSentinels writes lean/Gotree/Gen/C19Sentinels.lean: table (g), the literals the shared option
+// glue compares option values with (sentinels.go).
+func genSentinels(repo, out string) error {
+	rows, problems := sentinelRows(repo)
+	var b strings.Builder
+	b.WriteString("-- GENERATED by harness/c19/sentinels.go (`vh gen-tables`) from cmd/root.go and io/utils/readfiles.go; do not edit.\n")
+	b.WriteString("-- One row per comparison of an option value with a literal in the shared glue: (site, operator | constant, literal).\n")
+	b.WriteString("import Gotree.Model.C19IO\n\nnamespace Gotree.Gen.C19Sentinels\nopen Gotree.C19.IO\n\n")
+	b.WriteString("def rows : List SentinelRow := [")
+	for i, r := range rows {
+		if i > 0 {
+			b.WriteString(",")
+		}
+		fmt.Fprintf(&b, "\n  ⟨%s, %s, %s⟩", leanStr(r.Site), leanStr(r.Op), leanStr(r.Lit))
+	}
+	b.WriteString("]\n\ndef problems : List String := [")
+	for i, p := range problems {
+		if i > 0 {
+			b.WriteString(", ")
+		}
+		b.WriteString(leanStr(p))
+	}
+	b.WriteString("]\n\nend Gotree.Gen.C19Sentinels\n")
+	p := filepath.Join(out, "C19Sentinels.lean")
 	if old, err := os.ReadFile(p); err == nil && string(old) == b.String() {
 		return nil
 	}
